@@ -142,6 +142,25 @@ def parsePat (line : List Nat) : Option Pat :=
   let d := stripDir n.2
   some { negative := n.1, mustBeDir := d.1, noDir := !d.2.contains 47, text := stripLead d.2 }
 
+/-! ### reading an exclude file (`dir.c`, `add_patterns_from_buffer`) -/
+
+/-- `skip_utf8_bom` -/
+def skipBom (b : Bytes) : Bytes := if b.take 3 == [0xEF, 0xBB, 0xBF] then b.drop 3 else b
+
+/-- pieces between line feeds (the buffer ends in a line feed, so the last piece is complete) -/
+def splitLf : Bytes → Bytes → List Bytes
+  | [], _ => []
+  | b :: rest, cur => if b == 10 then cur :: splitLf rest [] else splitLf rest (cur ++ [b])
+
+/-- the pattern lines of an exclude file, as byte strings: a byte order mark at the start is skipped, a missing
+final line feed is supplied, a carriage return directly before a line feed is dropped.  Nothing is decoded:
+patterns are byte strings. -/
+def readLines (content : Bytes) : List Bytes :=
+  let b := skipBom content
+  if b.isEmpty then [] else
+  let b := if b.getLast? == some 10 then b else b ++ [10]
+  (splitLf b []).map fun l => if l.getLast? == some 13 then l.dropLast else l
+
 def joinComps : List Bytes → Bytes
   | [] => []
   | [c] => c
